@@ -93,7 +93,18 @@ def run(chk, ctx):
             elif "Read_disk" in types:
                 readl = (n, ops)
     if sweep is None or readl is None:
-        chk.decide("C19.SWEEP", cons0 + "#loops", None, "sweep / read loops not found", rel=REL, node=fn)
+        ff = for_form(chk, g, live, fn, b, cons0, lparam)
+        if not ff:
+            chk.decide("C19.SWEEP", cons0 + "#loops", None, "sweep / read loops not found", rel=REL, node=fn)
+            form(chk, repo)
+            return
+        sweep, readl, per = ff
+        # the period must not depend on l
+        closure, direct = deps_closure(fn, live)
+        dep = closure.get(per, set()) | {per}
+        chk.decide("C19.INDEP", cons0 + "#period", True if lparam not in dep else False,
+                   f"period `{per}` depends on {sorted(dep - {per})[:12]}", rel=REL, node=sweep[0])
+        only_and_form(chk, g, fn, cons0, sweep, readl, None, None, repo)
         return
     incs = [s for s in sweep[0].body if isinstance(s, ast.AugAssign) and isinstance(s.op, ast.Add) and isinstance(s.target, ast.Name)]
     if len(incs) != 1:
@@ -175,6 +186,95 @@ def run(chk, ctx):
             dd2 = gl - gr - Lin.sym(var)
             gok = True if (dd2.is_const() and dd2.c == 0) else (False if dd2.is_const() else None)
         chk.decide("C19.SWEEP", cons0 + "#read/guard", gok, f"read loop runs while `{ast.unparse(t)}`", rel=REL, node=readl[0])
+    only_and_form(chk, g, fn, cons0, sweep, readl, step, var, repo)
+
+
+def for_form(chk, g, live, fn, b, cons0, lparam):
+    """sweep written as `for p in range(E)` over a period index: Write_disk(p*mx); Forward [p*mx, (p+1)*mx];
+    E must be (l - 1) // mx (as many periods as leave more than one period's worth of steps... exactly the
+    positions k*mx with l - k*mx > mx)"""
+    from ..poly import PolyBuilder, pkey, pstr, padd, patom, pconst, pmul
+    assigned = {}
+    for n in ast.walk(fn):
+        if isinstance(n, ast.Assign) and len(n.targets) == 1 and isinstance(n.targets[0], ast.Name):
+            assigned.setdefault(n.targets[0].id, []).append(n.value)
+
+    def resolve(e):
+        if isinstance(e, ast.Name) and len(assigned.get(e.id, [])) == 1:
+            return assigned[e.id][0]
+        return e
+    loops = [n for n in ast.walk(fn) if isinstance(n, ast.For) and id(n) not in live.dead_nodes]
+    sweep = readl = None
+    for n in loops:
+        ops = [it for it in b.items if it.kind == "op" and it.live and any(x is it.node for x in ast.walk(n))]
+        types = {o.type for o in ops}
+        if "Write_disk" in types:
+            sweep = (n, ops)
+        elif "Read_disk" in types:
+            readl = (n, ops)
+    if sweep is None or readl is None:
+        return None
+    pb = PolyBuilder()
+
+    def count_of(loop):
+        it = loop.iter
+        if isinstance(it, ast.Call) and getattr(it.func, "id", None) == "reversed" and it.args:
+            it = it.args[0]
+        if isinstance(it, ast.Call) and getattr(it.func, "id", None) == "range":
+            if len(it.args) == 1:
+                return resolve(it.args[0])
+            if len(it.args) == 3:       # range(E - 1, -1, -1)
+                return ast.BinOp(resolve(it.args[0]), ast.Add(), ast.Constant(1))
+        return None
+    period = None
+    for n in ast.walk(sweep[0]):
+        pass
+    sops = {o.type: o for o in sweep[1]}
+    w, f = sops.get("Write_disk"), sops.get("Forward")
+    var = sweep[0].target.id if isinstance(sweep[0].target, ast.Name) else None
+    if w is None or f is None or var is None:
+        return None
+    widx = pb.poly(w.idx)
+    a, z = (pb.poly(x) for x in f.idx.elts)
+    length = padd(z, a, -1)
+    chk.decide("C19.SWEEP", cons0 + "#sweep/write-0", True if pkey(widx) == pkey(a) else False,
+               f"Write_disk index {pstr(widx)} vs Forward start {pstr(a)}", rel=REL, node=sweep[0])
+    # the position is index * length
+    per = None
+    for mono, c in widx.items():
+        if var in mono and c == 1 and len(mono) == 2:
+            per = [x for x in mono if x != var][0]
+    okpos = per is not None and pkey(widx) == pkey(pmul(patom(var), patom(per))) and pkey(length) == pkey(patom(per))
+    chk.decide("C19.SWEEP", cons0 + "#sweep/forward-2", True if okpos else None,
+               f"sweep position {pstr(widx)}, Forward length {pstr(length)}", rel=REL, node=sweep[0])
+    E = count_of(sweep[0])
+    if E is None or per is None:
+        chk.decide("C19.SWEEP", cons0 + "#sweep/guard", None, "sweep count not recognised", rel=REL, node=sweep[0])
+        return sweep, readl, per or "mx"
+    want = pb.poly(ast.parse(f"({lparam} - 1) // {per}", mode="eval").body)
+    got = pb.poly(E)
+    verdict = True if pkey(got) == pkey(want) else None
+    why = f"sweep runs for {pstr(got)} periods; required {pstr(want)} (positions k*{per} with more than {per} steps remaining)"
+    if verdict is None and isinstance(E, ast.BinOp) and isinstance(E.op, ast.FloorDiv):
+        num, den = pb.poly(E.left), pb.poly(E.right)
+        dnum = padd(num, pb.poly(ast.parse(f"{lparam} - 1", mode="eval").body), -1)
+        if pkey(den) == pkey(patom(per)) and set(dnum) <= {()} and dnum:
+            verdict = False
+            why += f": the numerator is off by {dnum[()]}, so the count differs whenever {lparam} crosses a multiple of {per}"
+    chk.decide("C19.SWEEP", cons0 + "#sweep/guard", verdict, why, rel=REL, node=sweep[0])
+    # read loop: same count, Read_disk at index * per
+    rops = [o for o in readl[1] if o.type == "Read_disk"]
+    E2 = count_of(readl[0])
+    same = E2 is not None and pkey(pb.poly(E2)) == pkey(got)
+    chk.decide("C19.SWEEP", cons0 + "#read/step", True if same else None,
+               "read loop runs over the same period indices as the sweep", rel=REL, node=readl[0])
+    chk.decide("C19.SWEEP", cons0 + "#read/once", True if len(rops) == 1 else False, f"{len(rops)} Read_disk per iteration",
+               rel=REL, node=readl[0], nontrivial=False)
+    return sweep, readl, per
+
+
+def only_and_form(chk, g, fn, cons0, sweep, readl, step, var, repo):
+    ONE_ = ONE
     # ---- ONLY
     wd_ops = []
     for fname in reachable(g, FN):
